@@ -1,6 +1,7 @@
 import Lean.Data.Json
 import Sqljson.Driver.Codec
 import Sqljson.Model.Api
+import Sqljson.Model.Parse
 import Sqljson.Props.Fuel
 /-!
 # Driver side of the `exec` correspondence stream
@@ -99,9 +100,35 @@ def outcomeJ : Api.Outcome → Json
   | .panic => Json.mkObj [("out", "panic")]
   | .outOfFuel => Json.mkObj [("out", "skip"), ("why", "out-of-fuel")]
 
+/-- ASCII instance of the character oracles (what `xid`, `strconv.IsPrint`, `unicode.ToLower` are
+    on ASCII); the path of an exec case was accepted by the Go parser, so its regexes compile. -/
+def asciiOr : Oracles where
+  xidStart c := ('a' ≤ c && c ≤ 'z') || ('A' ≤ c && c ≤ 'Z')
+  xidContinue c := ('a' ≤ c && c ≤ 'z') || ('A' ≤ c && c ≤ 'Z') || ('0' ≤ c && c ≤ '9') || c = '_'
+  isPrint c := 32 ≤ c.toNat && c.toNat < 127
+  toLower c := if 'A' ≤ c && c ≤ 'Z' then Char.ofNat (c.toNat + 32) else c
+  regexAccepts _ _ := true
+
+/-- The tree of an exec case is the one the *Go* parser built for the case's text. For an ASCII
+    text the parser model reads the text too: if it builds another tree (or none), the answer of
+    the case is `ast-mismatch`, so that a defect of the parser or of the node constructors shows
+    in every executor stream and not only in the parser streams. -/
+def astAgrees (j : Json) (a : AST) : Bool :=
+  match getStr? j "path" with
+  | none => true
+  | some txt =>
+    let cs := txt.toList
+    if cs.all (fun c => c.toNat < 128 && c.toNat ≠ 0) then
+      match Parse.parse asciiOr (cs.map fun c => UInt8.ofNat c.toNat) with
+      | .ok a' => Codec.astJ a' == Codec.astJ a
+      | _ => false
+    else true
+
 def handleExec (j : Json) : Json :=
   let r : Except String Json := do
     let a ← astOf ((j.getObjVal? "ast").toOption.getD Json.null)
+    if !astAgrees j a then
+      return Json.mkObj [("out", "ast-mismatch")]
     let doc ← itemOf ((j.getObjVal? "doc").toOption.getD Json.null)
     let vars ← varsOf ((j.getObjVal? "vars").toOption.getD Json.null)
     let entry ← ((getStr? j "entry") >>= entryOf).elim (.error "bad entry") .ok
